@@ -51,6 +51,11 @@ CHECKS = {
             "For datasets of 2..4 id-coded samples, 2..4 classes, equal and differing shapes (pad_or_cut_end), p in {0.3,1}, every index and six mode orders, the full product of the per-sample generator's answers (apply draw around the threshold, every partner, 4 weights) is executed on the real wrapper; the output must be explained by one (partner, weight) for image and label together, found by search over all partners; p=1 must mix; real seeded generators (seeds 0..7) check that image-only, label-only, joint and repeated requests describe one draw.",
             "Trusted: the explanation search in kdverif/props/c11.py; cutmix raises NotImplementedError (outside the claim).",
             "DESIGN.md section 5 C11"),
+    "C15": ("E2-bfs", "model_checking",
+            "BFS over factor sequences with the parameter vector as state (path-independence oracle) + lock-step simulation of round-robin workers for the scheduled transform",
+            "Every transform class that supports strength scaling (found by introspection, 2-3 constructor settings each) and compositions: all factor sequences of length <=3 (quick, 4 factors) / <=4 (thorough, 5 factors) are applied to real objects; the numeric parameter vector after a path ending in f must equal fresh.scale(f), f=1 must restore the constructed ranges exactly, f=0 must be the weakest setting, every bound must move monotonically and og_* values must never change; sampled parameters at the range ends (ChoiceRng) tie the state to behaviour. Scheduled transform: 1..4 simulated round-robin workers x batch sizes 1..3 x 1..8 batches x three budget kinds; strength in ctx and applied to every sample of global batch b must equal the schedule's value at b.",
+            "Trusted: the weakest-setting table and parameter-vector extraction in kdverif/props/c15.py; partial final batches are outside the stated domain.",
+            "DESIGN.md section 5 C15"),
 }
 
 NOT_APPLICABLE = {
